@@ -58,8 +58,16 @@ EncVerdict(c) ==
   ELSE IF Decode(want) # Val(San(c.v), Len(want)) THEN "encoded value does not decode back to itself"
   ELSE "ok"
 
+(* a valid stream with a frame of n bytes (n up to several MiB), fed whole and in pieces: Stable demands the *)
+(* same frames, nothing left, no error - whatever n is (the frames are compared by digest in the driver)    *)
+FragBigVerdict(c) ==
+  IF c.whole_bad # "" \/ c.whole_nframes # 3 THEN "a valid stream with a large frame does not decode when fed whole"
+  ELSE IF c.bad # "" THEN "a valid stream with a large frame fails when fed in pieces: " \o c.bad
+  ELSE IF ~c.same \/ c.nframes # c.whole_nframes \/ c.left # 0 THEN "frames of a large stream under fragmentation differ from the frames of the whole stream"
+  ELSE "ok"
+
 Verdict(c) == CASE c.t = "dec" -> DecVerdict(c) [] c.t = "deep" -> DeepVerdict(c)
-                [] c.t = "frag" -> FragVerdict(c) [] c.t = "enc" -> EncVerdict(c)
+                [] c.t = "frag" -> FragVerdict(c) [] c.t = "enc" -> EncVerdict(c) [] c.t = "fragbig" -> FragBigVerdict(c)
 TraceInit == l = 1
 TraceNext ==
   \/ /\ l <= Len(Rec)
